@@ -27,7 +27,7 @@ ASSUMPTIONS = [
 ]
 BUDGET = {"quick": {"examples": 3200}, "thorough": {"examples": 200000, "deadline_s": 900}}
 
-CFG = gen.cfg(max_syms=14, string_tier="U", p_choice=14, p_multi_def=12, p_choice_twice=20, p_bare=6)
+CFG = gen.cfg(max_syms=14, string_tier="U", p_choice=14, p_multi_def=12, p_choice_twice=20, p_bare=6, p_empty_string=15, p_member_props=12)
 KINDS = [(45, "set"), (8, "unset"), (8, "reset"), (3, "reset_menu"), (10, "load_hand"), (6, "write"), (8, "load_slot")]
 
 
